@@ -155,10 +155,14 @@ impl Config {
 }
 
 pub fn toml_value_from_str(string: &str) -> toml::Value {
-    let try_parse = toml::from_str::<toml::Value>(string);
+    // A bare scalar is not a TOML document, so parse it as the right-hand side of an assignment:
+    // this makes booleans, numbers and quoted strings work from the CLI and from #[diplomat::config]
+    let try_parse = toml::from_str::<Table>(&format!("value = {string}"))
+        .ok()
+        .and_then(|mut table| table.remove("value"));
 
     // If there's an error parsing (because clap will not parse quotes, for example), we just treat what we're passed as a string:
-    if let Ok(out) = try_parse {
+    if let Some(out) = try_parse {
         out
     } else {
         toml::Value::String(string.to_string())
